@@ -122,6 +122,17 @@ def gen_C14(rng, tier):
                     dist["hkind"][HK[h]] = dist["hkind"].get(HK[h], 0) + 1
                     dist["len_mod8"][str(n % 8)] = dist["len_mod8"].get(str(n % 8), 0) + 1
                     dist["align"][str(a)] = dist["align"].get(str(a), 0) + 1
+    # the accepting side: aligned slices of 8k bytes whose header declares any size that fits (and the first that does not)
+    for h in range(5):
+        hs = 16 if h == 4 else 8
+        for n in list(range(hs, 97, 8)) + [256, 1024]:
+            ds = sorted(set([hs, hs + 1, n - 8, n - 7, n - 1, n, n + 1, rng.randrange(hs, n + 1)]))
+            for d in ds:
+                if d < 0:
+                    continue
+                body = (hdr_bytes(h, d, rng) + marker(n, start=n + d))[:n]
+                cases.append("c14 %d 0 %s" % (h, hx(body)))
+                dist["accepting_family"] = dist.get("accepting_family", 0) + 1
     # large declared sizes
     for h in range(5):
         for d in (0xFFFFFFFF, 0x80000000, 0xFFFFFFF8, 0x10000, 4096, 4097):
@@ -138,7 +149,8 @@ def gen_C14(rng, tier):
             cases.append("align %d" % v)
     dist["align_values"] = len(vals)
     return cases, dict(
-        rule="c14: all (header kind 0..4, slice length 0..48, address mod 8, declared size 0..64) with marker payload - "
+        rule="c14: aligned slices of 8k bytes (8..96, 256, 1024) with every declared size class that fits or just does not; "
+             "all (header kind 0..4, slice length 0..48, address mod 8, declared size 0..64) with marker payload - "
              + ("exhaustive" if tier == "thorough" else "boundary cases always, 7% seeded sample of the rest")
              + "; large declared sizes; align: 0..69, 2^k+-e, 2^64-k, seeded random values. "
              "distinct_nontrivial = number of distinct (domain, model transcript) pairs.",
@@ -266,8 +278,44 @@ def gen_C02(rng, tier):
             cases.append("mbiwalk " + hx(region(t, last8_variants[name], 0)))
             count(dist["total_mod8"], str(t % 8))
             count(dist["last8"], name)
+    # realistic regions (0..8 tags, ending in the end tag) and one mutation of each: the accepting side of the "iff"
+    dist["realistic"] = {}
+    for _ in range(2000 if tier == "thorough" else 250):
+        tags = []
+        for _ in range(rng.randrange(0, 9)):
+            typ = rng.choice([1, 2, 3, 4, 6, 9, 16, 21, 22, 99, 0xFFFFFFFF])
+            plen = rng.choice([0, 1, 3, 4, 7, 8, 9, 12, 16, 23, rng.randrange(0, 64)])
+            tags.append(E.tag(typ, marker(plen, start=plen + typ % 50), fill=rng.choice([0, 0xAA])))
+        good = E.mbi(tags, reserved=rng.choice([0, 0, 0xFFFFFFFF, rng.getrandbits(32)]))
+        cases.append("mbiwalk " + hx(good))
+        count(dist["realistic"], "well_formed")
+        b = bytearray(good)
+        kind = rng.choice(["total+8", "total-8", "total+1", "total-1", "total=huge", "end_type", "end_size", "end_missing"])
+        t = len(b)
+        if kind == "total+8":
+            b[0:4] = E.u32(t + 8)
+            b += bytes(8)
+        elif kind == "total-8":
+            b[0:4] = E.u32(t - 8)
+        elif kind == "total+1":
+            b[0:4] = E.u32(t + 1)
+            b += bytes(1)
+        elif kind == "total-1":
+            b[0:4] = E.u32(t - 1)
+        elif kind == "total=huge":
+            b[0:4] = E.u32(rng.choice([4096, 65536, 1 << 20]))      # valid_mem extends the memory with zeros up to there
+        elif kind == "end_type":
+            b[t - 8:t - 4] = E.u32(rng.choice([1, 22, 0xFFFFFFFF]))
+        elif kind == "end_size":
+            b[t - 4:t] = E.u32(rng.choice([0, 7, 9, 16, 0xFFFFFFFF]))
+        else:
+            b = b[:t - 8]
+            b[0:4] = E.u32(t - 8)
+        cases.append("mbiwalk " + hx(valid_mem(bytes(b))))
+        count(dist["realistic"], kind)
     return cases, dict(
-        rule="mbiwalk: all total sizes 0..72 x six contents of the last 8 bytes x reserved word {0, 0xFFFFFFFF} (exhaustive), "
+        rule="mbiwalk: realistic regions of 0..8 tags, each also with one mutation of the total size or of the end tag; "
+             "all total sizes 0..72 x six contents of the last 8 bytes x reserved word {0, 0xFFFFFFFF} (exhaustive), "
              "the memory made valid being max(8,total) bytes; larger sizes (fixed list + seeded random, up to 1 MiB in thorough); "
              "null pointer. Only the `load` line (result, start/end/total) is compared for this property. "
              "distinct_nontrivial = distinct (domain, model transcript) pairs.",
@@ -400,6 +448,40 @@ def gen_C10(rng, tier):
                     count(dist["length_mod8"], str(length % 8))
                     count(dist["magic"], str(magic_ok))
                     count(dist["cksum"], ck)
+    # realistic headers (0..10 tags of the 11 kinds) and one mutation of each: the accepting side of the "iff"
+    dist["realistic"] = {}
+    for _ in range(2000 if tier == "thorough" else 250):
+        tags = []
+        while len(tags) < rng.randrange(0, 11):
+            t = rand_htag(rng, malformed=0)
+            if int.from_bytes(t[:2], "little") != 0:
+                tags.append(t)
+        arch = rng.choice([0, 4])
+        good = E.header(tags, arch=arch)
+        cases.append("hdrwalk " + hx(good))
+        count(dist["realistic"], "well_formed")
+        b = bytearray(good)
+        n = len(b)
+        kind = rng.choice(["magic", "cksum+1", "cksum_other_arch", "length+8", "length-8", "length+4", "length=8", "end_type", "end_size", "end_flags"])
+        if kind == "magic":
+            b[rng.randrange(0, 4)] ^= 1 << rng.randrange(8)
+        elif kind == "cksum+1":
+            b[12:16] = E.u32((int.from_bytes(b[12:16], "little") + 1) & 0xFFFFFFFF)
+        elif kind == "cksum_other_arch":
+            b[12:16] = E.u32(E.checksum(E.HDR_MAGIC, 4 - arch, n))
+        elif kind in ("length+8", "length-8", "length+4", "length=8"):
+            ln = {"length+8": n + 8, "length-8": n - 8, "length+4": n + 4, "length=8": 8}[kind]
+            b[8:12] = E.u32(ln)
+            b[12:16] = E.u32(E.checksum(E.HDR_MAGIC, arch, ln))
+            b += bytes(max(0, ln - n))
+        elif kind == "end_type":
+            b[n - 8:n - 6] = E.u16(rng.choice([1, 7, 10]))
+        elif kind == "end_size":
+            b[n - 4:n] = E.u32(rng.choice([0, 7, 9, 16]))
+        else:
+            b[n - 6:n - 4] = E.u16(1)
+        cases.append("hdrwalk " + hx(bytes(b)))
+        count(dist["realistic"], kind)
     sizes = [80, 96, 100, 1024, 4096, 65536] + [rng.randrange(72, 1 << 14) for _ in range(30)]
     if tier == "thorough":
         sizes += [1 << 20, (1 << 20) + 4] + [rng.randrange(72, 1 << 18) for _ in range(200)]
@@ -1019,8 +1101,16 @@ def gen_C18(rng, tier):
             count(dist, "long_maps")
     for d in (0xFFFFFFFF, 0x80000000, 0x10000):
         cases.append(mbi_case(E.mbi([E.t_efi_mmap(d, 1, bytes(80))])))
+    # the accepting side: every admissible stride x 0..20 entries with random descriptor contents, any version, a tag behind
+    for d in list(range(40, 137, 8)) + [256]:
+        for cnt in (list(range(0, 21)) if tier == "thorough" else [0, 1, 2, 3, 5, 9, 20]):
+            body = b"".join(E.efi_desc(rng.choice([0, 1, 7, 14, 15, 0x80000000, rng.getrandbits(32)]), rng.getrandbits(64), rng.getrandbits(64),
+                                       rng.getrandbits(64), rng.getrandbits(64), d, fill=rng.getrandbits(8)) for _ in range(cnt))
+            cases.append(mbi_case(E.mbi([E.t_efi_mmap(d, 1 if rng.random() < 0.9 else rng.choice([0, 2, 0xFFFFFFFF]), body), E.t_cmdline("behind")])))
+            count(dist, "accepted_maps")
     return cases, dict(
-        rule="mbi: EFI memory map tags for every descriptor size 0..128 x version {0,1,2} x entry count 0..4 x map lengths "
+        rule="mbi: accepted maps (strides 40..136 step 8 and 256 x up to 20 entries, random descriptors, version 1 in 90%, a tag behind); "
+             "EFI memory map tags for every descriptor size 0..128 x version {0,1,2} x entry count 0..4 x map lengths "
              "{k*d, k*d+-1, k*d+8, k*d+d/2} with marker descriptor contents (quick: versions 0/2 only at the exact length; "
              "thorough: all); huge descriptor sizes. Compared: accept/panic, every descriptor (offset, decoded fields), len() after "
              "every next(). distinct_nontrivial = distinct (domain, model transcript) pairs.",
@@ -1047,6 +1137,18 @@ def gen_C19(rng, tier):
                             table[k * es + 4:k * es + 8] = E.u32(rng.choice(types))
                     cases.append(mbi_case(E.mbi([E.t_elf(n, es, sh, bytes(table))])))
                     count(dist, "es_%s" % ("40" if es == 40 else "64" if es == 64 else "other"))
+    # well-formed tables of both layouts (the accepted path): 0..12 entries, every string-table index, mixed types,
+    # followed by another tag; half of them with a trailing partial entry's worth of bytes
+    for es in (40, 64):
+        for n in range(0, 13):
+            for sh in (range(n) if n else [0]):
+                if tier == "quick" and n > 4 and rng.random() < 0.6:
+                    continue
+                table = bytearray(rng.getrandbits(8) for _ in range(n * es + rng.choice([0, 0, 8, 16])))
+                for k in range(n):
+                    table[k * es + 4:k * es + 8] = E.u32(rng.choice(types) if rng.random() < 0.8 else 0)
+                cases.append(mbi_case(E.mbi([E.t_elf(n, es, sh, bytes(table)), E.t_cmdline("after")])))
+                count(dist, "wellformed_es_%d" % es)
     for (n, es) in ((0xFFFF, 0), (0x10000, 1), (3, 0x80000000), (0x10000, 0x10000), (0xFFFF, 0x10001)):
         cases.append(mbi_case(E.mbi([E.t_elf(n, es, 0, bytes(64))])))
     # products entry_size * shndx and count * entry_size around 2^32 (the deprecated BootInformation::elf_sections() multiplies too)
